@@ -72,11 +72,14 @@ def run_one(mid, checks, scale, tests=True):
     return 0
 
 
-def replay_all():
-    """For every seeded change with recorded replay files: apply it, replay each file in a fresh
-    process, record whether the violation reproduces; restore /repo."""
+def replay_all(only=None):
+    """For every seeded change with recorded replay files (or those whose id starts with one of
+    `only`): apply it, replay each file in a fresh process, record whether the violation
+    reproduces; restore /repo."""
     summary = {}
     for mid in sorted(os.listdir(SEEDED)):
+        if only and not any(mid.startswith(o) for o in only):
+            continue
         d = os.path.join(SEEDED, mid)
         files = sorted(f for f in os.listdir(d) if f.startswith("replay-") and f.endswith(".json"))
         if not files or not os.path.exists(os.path.join(d, "patch.diff")):
@@ -150,7 +153,7 @@ def main():
         report()
         return 0
     if a[0] == "replay-all":
-        return replay_all()
+        return replay_all(ids)
     if a[0] == "all":
         ids = sorted(x for x in os.listdir(SEEDED) if os.path.exists(os.path.join(SEEDED, x, "patch.diff")) and not os.path.exists(os.path.join(SEEDED, x, "result.json")))
     for mid in ids:
